@@ -107,7 +107,17 @@ theorem C19_method_facts :
        ("from_yamls", ["io.from_yaml"]), ("from_jsons", ["io.from_json"]), ("write_json", ["io.write_json"]),
        ("write_yaml", ["io.write_yaml"])] := by decide
 
+/-- … and they call NOTHING else: the complete set of calls in each method body is the delegate, plus — in the string
+variants — a fresh `StringIO` (and its `getvalue`).  No second code path (another dumper, a shared buffer, a cache). -/
+theorem C19_method_calls :
+    Facts.ioMethodCalls =
+      [("from_json", ["io.from_json"]), ("from_yaml", ["io.from_yaml"]), ("from_yaml_all", ["io.from_yaml_all"]),
+       ("from_yamls", ["StringIO", "io.from_yaml"]), ("from_jsons", ["StringIO", "io.from_json"]),
+       ("write_json", ["StringIO", "buf.getvalue", "io.write_json"]),
+       ("write_yaml", ["StringIO", "buf.getvalue", "io.write_yaml"])] := by decide
+
 #print axioms C19_pipeline_facts
 #print axioms C19_method_facts
+#print axioms C19_method_calls
 
 end PaneModel
